@@ -66,7 +66,7 @@ type world struct {
 }
 
 func newWorld(cfg config, seed int64) *world {
-	return &world{cfg: cfg, p: harness.NewPool(seed, 2, 2, 0, 2), sw: harness.Wrapper("storage", seed), seed: seed,
+	return &world{cfg: cfg, p: harness.NewPool(seed, 2, 2, 0, 2), sw: harness.SafeWrapper{Wrapper: harness.Wrapper("storage", seed)}, seed: seed,
 		tok: map[string]*harness.Token{"T1": harness.TokenPreview("T1", seed), "T2": harness.TokenPreview("T2", seed)}}
 }
 
@@ -403,7 +403,7 @@ func init() {
 		Level: "model_checking",
 		Rule: "BFS (quick depth 4, thorough depth 6) over {create T1|T2, use Ti by K1|K2, authorize Kj, remove Kj, age by lifetime-1ns | 1ns | 2*lifetime, tamper Ti with clear-time | transplant | bit-flip | downgrade} on the real registration code under a frozen virtual clock, for 6 configurations (storage wrapper off/on x maximum lifetime 1h, 1ns, 14d); state key = per token (presence, exact age up to lifetime+1ns, tamper tag, consumed) and per key whether it has a record; " +
 			"distinct_nontrivial = number of canonical states reached over all configurations",
-		Assumptions: []string{"the tie age == lifetime is not constrained (the property says 'exceeds')", "without a storage wrapper the stored clear creation time is what governs expiry (the property promises tamper resistance only with a wrapper)"},
+		Assumptions: []string{"the storage wrapper is length-guarded: an edited record can hand go-kms-wrapping's aead wrapper a ciphertext shorter than its nonce, which panics inside that dependency (not attributed to this library)", "the tie age == lifetime is not constrained (the property says 'exceeds')", "without a storage wrapper the stored clear creation time is what governs expiry (the property promises tamper resistance only with a wrapper)"},
 		Shards:      func(c *engine.Ctx) int { return 6 },
 		Run:         run,
 		Replay:      replay,
